@@ -292,6 +292,9 @@ func cmdPersist(args []string) {
 		if o.mode == "rewrite" && w%2 == 0 {
 			inflightScenario(tr, w, o, work, tot)
 		}
+		if o.mode == "snap" && w%8 == 0 {
+			autoSnapScenario(tr, w, work, tot)
+		}
 	}
 	if err := tr.Close(); err != nil {
 		die(2, "%v", err)
@@ -386,6 +389,56 @@ func inflightScenario(tr *Trace, w int, o persistOpts, work string, tot map[stri
 	}
 	tr.Emit(ev)
 	tot["inflight_scenarios"]++
+}
+
+// autoSnapScenario: the automatic snapshot.  A server with a snapshot interval of 100 ms and a change threshold
+// of 5 receives 3 writes, two intervals pass, it receives 3 more.  Six changes since the last snapshot are over
+// the threshold: a snapshot has to appear (a few intervals are allowed for it), and a restart from the
+// directory has to bring back all six keys.  Recorded as an "autosnap" event, judged by TraceAutoSnap.
+func autoSnapScenario(tr *Trace, w int, work string, tot map[string]int) {
+	dir, err := os.MkdirTemp(work, "autosnap-")
+	if err != nil {
+		die(2, "%v", err)
+	}
+	defer os.RemoveAll(dir)
+	const interval, threshold = 100 * time.Millisecond, 5
+	srv, err := NewSrv(SrvOpts{DataDir: dir, SnapThreshold: threshold, SnapInterval: interval})
+	if err != nil {
+		die(2, "%v", err)
+	}
+	var taken atomic.Int32
+	sugardb.VerifSetHandler(func(name string, args ...any) {
+		if name == "snap.done" {
+			taken.Add(1)
+		}
+	})
+	defer sugardb.VerifSetHandler(nil)
+	set := func(i int) { srv.Exec([]Tok{S("SET"), S("s" + strconv.Itoa(i)), B("v" + strconv.Itoa(i))}) }
+	for i := 1; i <= 3; i++ {
+		set(i)
+	}
+	time.Sleep(2*interval + interval/2)
+	early := taken.Load() > 0 // below the threshold: no snapshot yet
+	for i := 4; i <= 6; i++ {
+		set(i)
+	}
+	took := waitFor(30*interval, func() bool { return taken.Load() > 0 })
+	time.Sleep(20 * time.Millisecond)
+	now := srv.Now()
+	live := srv.DB.VerifDump()
+	srv.DB.ShutDown()
+	ev := map[string]any{"ev": "autosnap", "run": w, "now": now, "threshold": threshold, "writes": 6, "early": early, "took": took,
+		"st": projState(srv.Ep, live)}
+	c2, _, err := restoreFrom(dir, work, now, false, true, "no")
+	if err != nil {
+		ev["err"] = err.Error()
+		ev["st2"] = []any{}
+	} else {
+		ev["st2"] = projState(c2.Ep, c2.DB.VerifDump())
+		c2.DB.ShutDown()
+	}
+	tr.Emit(ev)
+	tot["autosnap_scenarios"]++
 }
 
 // persistStep is one step of a persistence workload.
